@@ -94,6 +94,12 @@ def register_func_adl_function(
     """
     info = _FuncAdlFunction(function.__name__, function, processor_function)  # type: ignore
     _global_functions[info.name] = info
+    # A registered function is a backend function: whatever its python body is, a call to it stays
+    # a call by name (the capture pass in util_ast does not inline a function that carries this mark).
+    try:
+        setattr(function, "_func_adl_registered", True)
+    except (AttributeError, TypeError):
+        pass
 
 
 W = TypeVar("W")
